@@ -845,8 +845,9 @@ ErrorCode Library::write_oas(const char* filename, double circle_tolerance,
             set_property(cell->properties, s_bounding_box_property_name, xmin, false);
             set_property(cell->properties, s_bounding_box_property_name, (uint64_t)0, false);
         }
+        // An offset loaded from another file never describes this one: drop it even when not requested
+        remove_property(cell->properties, s_cell_offset_property_name, true);
         if (write_cell_offsets) {
-            remove_property(cell->properties, s_cell_offset_property_name, true);
             set_property(cell->properties, s_cell_offset_property_name,
                          cell_offset_map.get(cell->name), true);
         }
